@@ -136,6 +136,37 @@ func c04KeyVerbatim(c *Ctx) {
 				if f := calleeOf(call.Common()); f != nil && f.Pkg() != nil && (f.Pkg().Path() == "bytes" || f.Pkg().Path() == "strings") && f.Type().(*types.Signature).Recv() == nil {
 					bad = append(bad, fmt.Sprintf("result rewritten by %s.%s at %s", f.Pkg().Path(), f.Name(), c.relPos(call.Pos())))
 				}
+				// the assembled key handed to a function of the module that stores into it or returns something else
+				if sf := call.Common().StaticCallee(); sf != nil && sf.Pkg != nil && c.isOurs(sf.Pkg.Pkg) && len(sf.Blocks) > 0 {
+					for i, a := range call.Common().Args {
+						if i >= len(sf.Params) || !isByteSlice(a.Type()) {
+							continue
+						}
+						fromBuf := false
+						for v := range backSlice(a, nil) {
+							if cl, isCall := v.(*ssa.Call); isCall {
+								if g := calleeOf(cl.Common()); g != nil && g.Name() == "Bytes" {
+									fromBuf = true
+								}
+							}
+							if isBuiltinCall(v, "append") != nil {
+								fromBuf = true
+							}
+						}
+						if !fromBuf {
+							continue
+						}
+						for _, b := range sf.Blocks {
+							for _, in := range b.Instrs {
+								if st, isSt := in.(*ssa.Store); isSt {
+									if ia, isIA := st.Addr.(*ssa.IndexAddr); isIA && sourcesOf(ia.X)[sf.Params[i]] {
+										bad = append(bad, fmt.Sprintf("assembled key rewritten in place by %s at %s", fnName(sf), c.relPos(st.Pos())))
+									}
+								}
+							}
+						}
+					}
+				}
 			}
 		}
 		for _, b := range fn.Blocks {
@@ -158,4 +189,102 @@ func c04KeyVerbatim(c *Ctx) {
 		sort.Strings(bad)
 		c.Check(rule, fnName(fn)+"|assembled-key-returned-as-is", len(bad) == 0, fn.Pos(), fmt.Sprintf("%v", bad))
 	}
+}
+
+// c04PostAlways implements C01/C04.post-always on the closest-key reader: the rows of a name are collected by the row
+// callback during the look-ups of an iteration and only BECOME part of the answer in the per-iteration callback that
+// follows them (the weighted sampler is flushed there, the found flag is read there). Every way out of the walk that
+// lies behind a look-up — other than a look-up error — therefore comes after that callback. Leaving at the data border
+// first (seed c04r4i) drops the located client's own address records of the first name of the database.
+func c04PostAlways(c *Ctx, rule string) {
+	c.Rule(rule, "A2 in (*sortedDataReader).find: inside the walk loop, every exit branch that is reachable from a TryForEach look-up of the same iteration and does not test an error is dominated by the call of the post-iteration callback (a parameter of function type without arguments)")
+	fn := c.Func("db", "(*sortedDataReader).find")
+	c.Examined(fn)
+	var lookups, posts []ssa.CallInstruction
+	for _, ci := range callInstrs(fn) {
+		cc := ci.Common()
+		if cc.IsInvoke() && cc.Method.Name() == "TryForEach" {
+			lookups = append(lookups, ci)
+		}
+		if sf := cc.StaticCallee(); sf != nil && sf.Name() == "TryForEach" {
+			lookups = append(lookups, ci)
+		}
+		if p, ok := cc.Value.(*ssa.Parameter); ok && !cc.IsInvoke() {
+			if sig, ok := p.Type().Underlying().(*types.Signature); ok && sig.Params().Len() == 0 && sig.Results().Len() == 1 {
+				posts = append(posts, ci)
+			}
+		}
+	}
+	if len(lookups) == 0 || len(posts) == 0 {
+		c.Undecided(rule, fnName(fn)+"|anchors", fn.Pos(), fmt.Sprintf("look-ups: %d, post-iteration callback calls: %d", len(lookups), len(posts)))
+		return
+	}
+	loops := naturalLoops(fn)
+	n := 0
+	for h, body := range loops {
+		if !body[lookups[0].Block()] {
+			continue
+		}
+		for _, b := range fn.Blocks {
+			if !body[b] {
+				continue
+			}
+			iff, ok := b.Instrs[len(b.Instrs)-1].(*ssa.If)
+			if !ok {
+				continue
+			}
+			exits := false
+			for _, s := range b.Succs {
+				if !body[s] {
+					exits = true
+				}
+			}
+			if !exits {
+				continue
+			}
+			// behind a look-up of this iteration?
+			behind := false
+			for _, lk := range lookups {
+				if body[lk.Block()] && reachable(lk.Block(), map[*ssa.BasicBlock]bool{h: true})[b] {
+					behind = true
+				}
+			}
+			if !behind {
+				continue
+			}
+			// error test?
+			isErr := false
+			if bo, ok := iff.Cond.(*ssa.BinOp); ok && (isNilConst(bo.X) || isNilConst(bo.Y)) {
+				x := bo.X
+				if isNilConst(x) {
+					x = bo.Y
+				}
+				if x.Type().String() == "error" {
+					isErr = true
+				}
+			}
+			// the callback's own result?
+			isPost := false
+			for _, p := range posts {
+				if v := valueOfCall(p); v != nil {
+					cond, _ := stripNot(iff.Cond)
+					if cond == v {
+						isPost = true
+					}
+				}
+			}
+			if isErr || isPost {
+				continue
+			}
+			n++
+			dominated := false
+			for _, p := range posts {
+				if instrDominates(p, iff) {
+					dominated = true
+				}
+			}
+			c.Check(rule, fmt.Sprintf("%s|exit#%d@%s|after-the-post-iteration-callback", fnName(fn), n, describeCond(iff.Cond)), dominated, iff.Pos(), "a way out of the walk behind a look-up that skips the per-iteration callback loses what the look-up collected")
+		}
+	}
+	c.Floor(rule, 1)
 }
